@@ -16,7 +16,7 @@ import json, os, shutil, signal, subprocess, sys, time
 
 ROOT = os.path.dirname(os.path.dirname(os.path.abspath(__file__)))
 SEEDED = os.path.join(ROOT, "seeded")
-SCRATCH = "/tmp/verif-seedrun"
+SCRATCH = os.environ.get("SEEDTEST_SCRATCH", "/tmp/verif-seedrun")
 BIND_DIRS = ["target", "target-probe-start", "target-probe-thread", "work", "evidence", "replays"]
 
 
@@ -42,11 +42,43 @@ def fresh_repo_copy(dst):
     sh(f"cd {dst} && git init -q && git add -A && git -c user.email=s@e -c user.name=s commit -qm base")
 
 
+def touch_all(dst):
+    # cargo decides freshness of path dependencies by mtime only (a file that goes BACK to an older
+    # mtime is not noticed), and the seed-only target directory is reused from one seed to the next:
+    # without this, a crate patched by the previous seed and untouched by this one would not be rebuilt
+    # and the previous seed's change would still be in the binaries.
+    sh(f"find {dst} -type f -not -path '*/.git/*' -exec touch {{}} +")
+
+
 def main():
-    names = sys.argv[1:] or sorted(d for d in os.listdir(SEEDED) if os.path.isdir(os.path.join(SEEDED, d)))
+    args = sys.argv[1:]
+    if args and args[0] == "--jobs":
+        # run the given (default: all) seeds in N parallel workers, each with its own scratch directory; results are merged at the end
+        n_jobs = int(args[1])
+        names = args[2:] or sorted(d for d in os.listdir(SEEDED) if os.path.isdir(os.path.join(SEEDED, d)))
+        procs = []
+        for j in range(n_jobs):
+            part = names[j::n_jobs]
+            if not part:
+                continue
+            env = dict(os.environ, SEEDTEST_SCRATCH=f"{SCRATCH}-{j}", SEEDTEST_RESULTS=os.path.join(SCRATCH + f"-{j}", "RESULTS.part.json"))
+            os.makedirs(SCRATCH + f"-{j}", exist_ok=True)
+            procs.append((j, subprocess.Popen([sys.executable, os.path.abspath(__file__)] + part, env=env)))
+        for j, p in procs:
+            p.wait()
+        results = json.load(open(os.path.join(SEEDED, "RESULTS.json"))) if os.path.exists(os.path.join(SEEDED, "RESULTS.json")) else {}
+        for j, _ in procs:
+            f = os.path.join(SCRATCH + f"-{j}", "RESULTS.part.json")
+            if os.path.exists(f):
+                results.update(json.load(open(f)))
+        json.dump(results, open(os.path.join(SEEDED, "RESULTS.json"), "w"), indent=1, sort_keys=True)
+        return 0
+    names = args or sorted(d for d in os.listdir(SEEDED) if os.path.isdir(os.path.join(SEEDED, d)))
     results = {}
-    if os.path.exists(os.path.join(SEEDED, "RESULTS.json")):
-        results = json.load(open(os.path.join(SEEDED, "RESULTS.json")))
+    results_path = os.environ.get("SEEDTEST_RESULTS", os.path.join(SEEDED, "RESULTS.json"))
+    part = "SEEDTEST_RESULTS" in os.environ
+    if os.path.exists(results_path) and not part:
+        results = json.load(open(results_path))
     os.makedirs(SCRATCH, exist_ok=True)
     repo_copy = os.path.join(SCRATCH, "repo")
     head = sh("git -C /repo rev-parse --short HEAD").stdout.strip()
@@ -58,7 +90,7 @@ def main():
             # the change no longer breaks the property on the current tree (see meta.json); nothing to detect
             results[n] = dict(property=meta["property"], summary=meta.get("summary", ""), repo_head=head, checks={}, detected=None,
                               superseded=meta["superseded"])
-            json.dump(results, open(os.path.join(SEEDED, "RESULTS.json"), "w"), indent=1)
+            json.dump(results, open(results_path, "w"), indent=1, sort_keys=True)
             print(f"{n:28s} superseded by {meta['superseded'].get('by')}")
             continue
         patch = os.path.join(d, "patch.diff")
@@ -68,6 +100,7 @@ def main():
             results[n] = dict(error="patch does not apply to /repo HEAD " + head + ": " + a.stdout[-300:])
             print(f"{n:28s} PATCH DOES NOT APPLY")
             continue
+        touch_all(repo_copy)
         binds = [f"mount --bind {repo_copy} /repo"]
         for b in BIND_DIRS:
             src = os.path.join(SCRATCH, b)
@@ -84,7 +117,7 @@ def main():
                           tail=r.stdout.strip().splitlines()[-1][:300] if r.stdout.strip() else "")
         results[n] = dict(property=meta["property"], summary=meta.get("summary", ""), repo_head=head, checks=res,
                           detected=any(v["exit"] == 1 for v in res.values()))
-        json.dump(results, open(os.path.join(SEEDED, "RESULTS.json"), "w"), indent=1)
+        json.dump(results, open(results_path, "w"), indent=1, sort_keys=True)
         det = results[n].get("detected")
         print(f"{n:28s} {'DETECTED' if det else 'missed  '} " + " ".join(f"{p}:exit{v['exit']}:{','.join(v['keys'][:3])}" for p, v in results[n]["checks"].items()), flush=True)
     shutil.rmtree(repo_copy, ignore_errors=True)
